@@ -40,7 +40,7 @@ such case is a unit, an obligation or a scenario that now exists:
   history".  C09d -> the declared-target-type argument of `convert_event_and_execute_entry` labelled C09 + explicit entry through every row
   kind in `hist`.  C10d -> tolerant completion-helper rewrite (was drift) + `defer` scenario "handled in one region, deferred in another".
   C06d (type-level) -> `sel` own-internal-table scenario tagged C06/C07.  C11d -> caught; `block` scenario "terminate and interrupt both active" added as witness.
-* "thorough tier only" (type-level changes, no contract reaches them; the native families decide): C17b, C17c, C13b, C07c, C18c, C06d.
+* type-level changes (no contract reaches them; the native families decide - since the uncovered-code trigger of 10.3(c) also in the quick tier): C17b, C17c, C13b, C07c, C18c, C06d.
 
 ''' % n
 s = s[:i] + head + table + '\n' + s[j:]
